@@ -243,8 +243,9 @@ def hier_eval(host, tlib, stim):
     return {n.index: (line_val(n.ins[0]) if len(n.ins) > 0 and n.ins[0] is not None else None) for n in s_nodes}
 
 
-def multi_case(rng, lib, tlib, comb, seq, capture_table):
-    """(snapshot or None, description, failure message or None, failure class)"""
+def multi_case(rng, lib, tlib, comb, seq, capture_table, post=None):
+    """(snapshot or None, description, failure message or None, failure class); post(resolved circuit) -> message or None is an extra
+    check of the result (C10: eliminate_1to1_forks after resolve_tlib_cells)"""
     import itertools
     host, desc, has_seq = multi_host(rng, tlib, comb, seq)
     desc.update({'kind': 'resolve-multi', 'library': lib, 'host': ssc.tables(host)})
@@ -263,6 +264,10 @@ def multi_case(rng, lib, tlib, comb, seq, capture_table):
         return snap, desc, 'library cells remain after resolving', 'remain'
     if [(n.name, n.kind) for n in r.s_nodes[:len(r.io_nodes)]] != before:
         return snap, desc, 'resolving changes the names / order of the ports', 'ports'
+    if post is not None:
+        msg = post(r)
+        if msg:
+            return snap, desc, msg, 'eliminate'
     if has_seq or not snap['d22']:
         return snap, desc, None, None
     # function at the output ports and at the host's own state element, ports by position, host state by name
